@@ -174,59 +174,96 @@ def run(chk):
     return chk.finish(classify)
 
 
+def _parse_verdict(r):
+    parts = dict(p.split('=', 1) for p in r.split('|'))
+    return {'writes': [x for x in parts['writes'].split(',') if x], 'globals': [x for x in parts['globals'].split(',') if x],
+            'editor': parts['editor'] == '1', 'random': parts['random'] == '1', 'closed': parts['closed'] == '1',
+            'recheck': parts['recheck']}
+
+
 def _static_compare(chk, st, observed, info):
     """the Lean analysis verdict per API member (through the driver) against what was observed"""
     surface = D.api_surface()
-    names = [a for a, _ in surface if a not in D.DECLARED_OUTSIDE] + ['Fragmenter']
-    lines = ['verdict\t' + n for n in names]
-    replies = chk.driver(DRV, lines)
+    names = [a for a, _ in surface] + ['Fragmenter']
+    variants = []
+    for n in names:
+        variants.append(n)
+        variants.append(n + '[inplace]')
+    replies = chk.driver(DRV, ['verdict\t' + n for n in variants] + ['outside', 'count'])
+    lean_outside = set(x for x in replies[-2].split(',') if x)
+    nfun = replies[-1]
+    chk.count('analysed_functions', int(nfun) if nfun.isdigit() else 0)
     verdict = {}
-    for n, r in zip(names, replies):
-        verdict[n] = r
-    flagged = {}
-    unknown = []
-    for n, r in verdict.items():
-        if r in ('unknown', 'bad-op'):
-            unknown.append(n)
-            continue
-        # reply: writes=<p1,p2>|globals=<g1,..>|editor=<0/1>
-        parts = dict(p.split('=', 1) for p in r.split('|'))
-        flagged[n] = {'writes': [x for x in parts['writes'].split(',') if x], 'globals': [x for x in parts['globals'].split(',') if x],
-                      'editor': parts['editor'] == '1'}
-    chk.samples.append({'driver': 'verdict', 'mass': verdict.get('mass'), 'fragment': verdict.get('fragment'),
-                        'ProFormaAnnotation.pop_labile_mods': verdict.get('ProFormaAnnotation.pop_labile_mods')})
+    for n, r in zip(variants, replies[:-2]):
+        if r not in ('unknown', 'bad-op'):
+            verdict[n] = _parse_verdict(r)
+    chk.samples.append({'driver': 'verdict', 'mass': replies[variants.index('mass')],
+                        'ProFormaAnnotation.slice[inplace]': replies[variants.index('ProFormaAnnotation.slice[inplace]')],
+                        'shuffle': replies[variants.index('shuffle')]})
+
+    # (1) the explicit outside list is the same on both sides, and every API member has a verdict or is outside
+    def o_cov(n):
+        if n == '<outside-lists>':
+            if lean_outside != set(D.DECLARED_OUTSIDE):
+                return f'declaredOutside differs: Lean {sorted(lean_outside)} vs harness {sorted(D.DECLARED_OUTSIDE)}'
+            return None
+        if n not in verdict:
+            return f'API member {n} has no analysed program (translator did not find its definition)'
+        v = verdict[n]
+        if not v['closed']:
+            return f'{n}: the emitted table is not closed under its program'
+        if v['recheck'] != 'same':
+            return f'{n}: the Lean analysis recomputed natively disagrees with the table computed by the translator'
+        return None
+    chk.oracle('analysis_covers_api', ['<outside-lists>'] + names, o_cov)
+
+    # (2) soundness direction: every parameter observed written is flagged by the analysis (for the variant observed)
+    obs_by_variant = {}
+    for spec in st.specs:
+        key = spec.api + ('[inplace]' if 'inplace' in spec.name else '')
+        for si in range(len(st.bases)):
+            for k in st.writes[si].get(spec.name, ()):
+                if spec.editor and k == spec.target:
+                    obs_by_variant.setdefault(key, set()).add(spec.params.get(k, '?' + k))
+                else:
+                    obs_by_variant.setdefault(key, set()).add(spec.params.get(k, '?' + k))
+    cases = sorted(set(obs_by_variant) | {n for n in verdict if n in names})
 
     def line_of(n):
         return 'verdict\t' + n
 
-    cases = sorted(set(list(observed) + list(flagged)))
-
     def impl(n):
-        return ','.join(sorted(p for p in observed.get(n, ()) if not p.startswith('?')))
+        return ','.join(sorted(p for p in obs_by_variant.get(n, ()) if not p.startswith('?')))
 
-    def cmp_(im, model_reply):
-        if model_reply in ('unknown', 'bad-op'):
+    def cmp_(im, reply):
+        if reply in ('unknown', 'bad-op'):
             return False
-        parts = dict(p.split('=', 1) for p in model_reply.split('|'))
-        fl = {x for x in parts['writes'].split(',') if x}
+        fl = set(_parse_verdict(reply)['writes'])
         ob = {x for x in im.split(',') if x}
-        return ob <= fl      # soundness direction: everything observed written is flagged
-
-    chk.correspond('observed_writes_subset_of_flagged', DRV, [n for n in cases if n not in D.DECLARED_OUTSIDE],
-                   line_of, impl, compare=cmp_, nontrivial_fn=lambda c, im: True)
-    imprecise = sorted(n for n, v in flagged.items()
-                       if set(v['writes']) - observed.get(n, set()) - ({'self', 'sequence'} if D.is_declared_editor(n) else set()))
-    chk.notes.append('flagged by the analysis but never observed writing (imprecision, not a violation): ' + json.dumps(
-        {n: sorted(set(flagged[n]['writes']) - observed.get(n, set())) for n in imprecise}))
-    chk.notes.append('observed argument writes (editors on non-target arguments, and queries): ' + json.dumps(
-        {k: sorted(v) for k, v in observed.items()}))
-    if unknown:
-        chk.notes.append('API members without an analysed program: ' + json.dumps(unknown))
-    # queries that the analysis flags: the Lean obligation generated_queries_pure fails with them; name them
-    q_flagged = sorted(n for n, v in flagged.items() if not v['editor'] and (v['writes'] or v['globals']))
+        return ob <= fl
+    chk.correspond('observed_writes_subset_of_flagged', DRV, [n for n in cases if n.replace('[inplace]', '') not in D.DECLARED_OUTSIDE],
+                   line_of, impl, compare=cmp_, nontrivial_fn=lambda c, im: bool(im))
+    # observed global disturbance must be flagged too (the dynamic clause itself already fails for non-random specs)
+    imprecise = {}
+    for n, v in verdict.items():
+        extra = set(v['writes']) - obs_by_variant.get(n, set())
+        if extra and n in obs_by_variant or (extra and n in names):
+            imprecise[n] = sorted(extra)
+    chk.notes.append('flagged by the analysis but not observed written by the call specs (imprecision or unexercised path, '
+                     'not a violation): ' + json.dumps(imprecise))
+    chk.notes.append('observed argument writes per API variant: ' + json.dumps({k: sorted(v) for k, v in obs_by_variant.items()}))
+    # queries flagged by the analysis: the Lean obligation generated_queries_pure fails with them; name them here
+    q_flagged = {n: v for n, v in verdict.items() if not v['editor'] and not v['random'] and (v['writes'] or v['globals'])
+                 and n.replace('[inplace]', '') not in D.DECLARED_OUTSIDE}
     if q_flagged:
-        chk.lean_problems.append('analysis flags non-editor API members as writing: ' + json.dumps(
-            {n: flagged[n] for n in q_flagged})[:1500])
+        chk.lean_problems.append('the analysis flags non-editor API members as writing (generated_queries_pure): ' +
+                                 json.dumps({n: {'writes': v['writes'], 'globals': v['globals']} for n, v in q_flagged.items()})[:1500])
+    e_flagged = {n: v for n, v in verdict.items() if v['editor'] and not v['random'] and
+                 ([w for w in v['writes'] if w not in ('self', 'sequence')] or v['globals'])
+                 and n.replace('[inplace]', '') not in D.DECLARED_OUTSIDE}
+    if e_flagged:
+        chk.lean_problems.append('the analysis flags editors as writing more than their own object (generated_editors_write_only_target): ' +
+                                 json.dumps({n: {'writes': v['writes'], 'globals': v['globals']} for n, v in e_flagged.items()})[:1500])
 
 
 def classify(failure):
